@@ -43,10 +43,7 @@ func (s *session) pullOnce(o *obs, op genOp, name string, preMsg proto.Message) 
 		return false
 	}
 	fm, om := s.mask(op.Mask, true)
-	sub := zeros(s.tr.res.Fields().Len())
-	for _, idx := range om.Nested {
-		sub[idx-1] = absSubField(s.tr.res, preMsg, idx-1, om.sub[idx])
-	}
+	sub := s.subVec(om, preMsg)
 	o.Op = "OpenPull"
 	o.Mask = om
 	o.Note = "Pull with a read mask: first message only"
@@ -89,19 +86,7 @@ func (s *session) timedUpdate(o *obs, op genOp, name string) bool {
 	}
 	// the update's own change is consumed here (it arrives at once), so that what is left on a stream is always
 	// an echo of the current value; nothing is asserted about it (TimedFails)
-	changed := err == nil && o.Pre.Ok && !sameVec(o.Resp, o.Pre.V)
-	for _, ps := range s.streams {
-		sn := s.snapshot(ps)
-		if changed {
-			sn.Awaited = true
-			sn.Msgs, sn.Timeout = s.await(ps, o.Resp)
-			sn.Ended = ps.ended
-			ps.pending = 0
-		} else if err == nil {
-			ps.pending++
-		}
-		o.Streams = append(o.Streams, sn)
-	}
+	s.deliver(o, m, err)
 	return true
 }
 
@@ -214,25 +199,13 @@ func (s *session) gatedUpdate(o *obs, op genOp, name string) {
 	o.Code, o.Panic = errCode(res.err)
 	o.Resp = absMsg(s.tr.res, res.m)
 	o.Post = s.fullGet()
-	changed := res.err == nil && o.Pre.Ok && !sameVec(o.Resp, o.Pre.V)
 	if res.err == nil {
 		s.armed = false
 		if kind == "good" {
 			s.lastVal = s.goodIndex(val) + 1
 		}
 	}
-	for _, ps := range s.streams {
-		sn := s.snapshot(ps)
-		if changed {
-			sn.Awaited = true
-			sn.Msgs, sn.Timeout = s.await(ps, o.Resp)
-			sn.Ended = ps.ended
-			ps.pending = 0
-		} else if res.err == nil {
-			ps.pending++
-		}
-		o.Streams = append(o.Streams, sn)
-	}
+	s.deliver(o, res.m, res.err)
 	s.streams = append(s.streams, nb)
 	s.out.Write(oo)
 	s.mt.Steps++
